@@ -209,6 +209,11 @@ pub struct Style {
     pub single_quotes: bool,
     pub reverse_attrs: bool,
     pub xml_decl: bool,
+    /// spelling of the XML declaration (when there is one): 0 `version="1.0" encoding="UTF-8"`,
+    /// 1 version only, 2 single quotes and `utf-8`, 3 with `standalone="yes"`, 4 `utf-8`,
+    /// `standalone='no'` and a space before `?>`, 5 spaces around `=` and `Utf-8`
+    #[serde(default)]
+    pub decl_form: u8,
     /// empty leaf elements (`<ok/>`, `<reject/>`) as `<x></x>` instead of `<x/>`
     pub expand_empty: bool,
     /// empty container elements (`<rpc-reply>`, `<data>`, `<configuration>`) as `<x/>` instead
@@ -235,6 +240,7 @@ impl Style {
             single_quotes: false,
             reverse_attrs: false,
             xml_decl: false,
+            decl_form: 0,
             expand_empty: false,
             collapse_containers: false,
             before_marker: Ws::NewlineIndent(0),
@@ -272,7 +278,7 @@ impl Style {
         if self.reverse_attrs != other.reverse_attrs {
             d.push("attr-order");
         }
-        if self.xml_decl != other.xml_decl {
+        if self.xml_decl != other.xml_decl || (self.xml_decl && self.decl_form != other.decl_form) {
             d.push("xml-decl");
         }
         if self.expand_empty != other.expand_empty {
@@ -318,10 +324,11 @@ pub fn style_strategy() -> impl Strategy<Value = Style> {
         0u8..3,
         any::<bool>(),
         any::<bool>(),
-        prop::bool::weighted(0.2),
+        prop::bool::weighted(0.3),
         any::<bool>(),
         ws_strategy(),
         any::<bool>(),
+        0u8..6,
     )
         .prop_map(
             |(
@@ -336,6 +343,7 @@ pub fn style_strategy() -> impl Strategy<Value = Style> {
                 expand_empty,
                 before_marker,
                 collapse_containers,
+                decl_form,
             )| {
                 let xnm_prefix = match (&base_prefix, xnm_prefix) {
                     // two different namespaces must not share a prefix
@@ -351,6 +359,7 @@ pub fn style_strategy() -> impl Strategy<Value = Style> {
                     single_quotes,
                     reverse_attrs,
                     xml_decl,
+                    decl_form,
                     expand_empty,
                     collapse_containers,
                     before_marker,
@@ -537,7 +546,14 @@ pub fn render_elem(x: &X, style: &Style) -> String {
 pub fn render_message(x: &X, style: &Style) -> String {
     let mut out = String::new();
     if style.xml_decl {
-        out.push_str("<?xml version=\"1.0\" encoding=\"UTF-8\"?>");
+        out.push_str(match style.decl_form % 6 {
+            0 => "<?xml version=\"1.0\" encoding=\"UTF-8\"?>",
+            1 => "<?xml version=\"1.0\"?>",
+            2 => "<?xml version='1.0' encoding='utf-8'?>",
+            3 => "<?xml version=\"1.0\" encoding=\"UTF-8\" standalone=\"yes\"?>",
+            4 => "<?xml version=\"1.0\" encoding=\"utf-8\" standalone='no' ?>",
+            _ => "<?xml version = \"1.0\" encoding = \"Utf-8\"?>",
+        });
         out.push_str(&style.inter.render(0));
     }
     if style.comments >= 2 {
